@@ -827,7 +827,7 @@ func TestVerifC05(t *testing.T) {
 	larges := mc.Pick(
 		[]lg{{64, 2, 3}, {64, 3, 2}, {64, 1, 1}, {65, 2, 4}, {96, 1, 2}},
 		[]lg{{64, 2, 3}, {64, 3, 2}, {64, 1, 1}, {65, 2, 4}, {96, 1, 2}, {96, 2, 5}, {130, 1, 3}, {64, 2, 5}, {96, 3, 4}, {64, 2, 64}, {65, 1, 100}})
-	exactCap := int64(mc.Pick(4200, 300000))
+	exactCap := int64(mc.Pick(4200, 40000))
 	boundedCap := int64(mc.Pick(60000, 200000))
 	largeRegimes := make([]string, len(larges))
 	c05Parallel(len(larges), func(i int) {
